@@ -140,6 +140,58 @@ def run(ctx):  # noqa: C901, PLR0912
     ctx.ob('C18.R3', 'USE_DECIMAL_TYPE default', isinstance(v, ast.Constant) and v.value is True,
            'USE_DECIMAL_TYPE is True by default', where=dc.qual, line=getattr(v, 'lineno', None))
 
+    # ------------------------------------------------------------------ R5 (lexical post-processing of numbers)
+    ctx.rule('C18.R5', 'lexical clean-up of a number touches only fractional zeros; the 18-digit budget counts digits, '
+                       'not the sign or a leading zero')
+    g = cfg_of(tx)
+    la = local_assignments(tx.node)
+    frac_names = set()
+    for n in walk_no_nested(tx.node):
+        if isinstance(n, ast.Assign) and isinstance(n.targets[0], ast.Tuple) and len(n.targets[0].elts) == 2 and \
+                isinstance(n.value, ast.Call) and call_name(n.value) == 'split' and n.value.args and \
+                isinstance(n.value.args[0], ast.Constant) and n.value.args[0].value == '.':
+            frac_names.add(unparse(n.targets[0].elts[1]))
+            int_name = unparse(n.targets[0].elts[0])
+    strips = [c for c in calls_in(tx.node) if call_name(c) in ('rstrip', 'strip', 'lstrip') and c.args and
+              isinstance(c.args[0], ast.Constant) and isinstance(c.args[0].value, str) and '0' in c.args[0].value]
+    bad = [c for c in strips if call_name(c) != 'lstrip' and unparse(c.func.value) not in frac_names]
+    ctx.ob('C18.R5', 'zero stripping only on the fraction', not bad,
+           'trailing zeros are removed only from the fractional part' if not bad else
+           f'{unparse(bad[0])} strips the characters {bad[0].args[0].value!r} from the whole number: once the point is gone '
+           f'it also removes zeros of the integer part (Decimal("100.0") is written as "1")', fi=tx,
+           node=bad[0] if bad else None)
+    # trailing-character loops: every loop that shortens the number must re-check that a point is still present
+    ok = True
+    n_loops = 0
+    for w in [n for n in walk_no_nested(tx.node) if isinstance(n, ast.While)]:
+        cuts = [x for x in ast.walk(w) if isinstance(x, ast.Assign) and isinstance(x.value, ast.Subscript)
+                and isinstance(x.value.slice, ast.Slice) and unparse(x.value.slice) == ':-1']
+        if cuts:
+            n_loops += 1
+            tgt = unparse(cuts[0].targets[0])
+            ok = ok and f"'.' in {tgt}" in unparse(w.test) and isinstance(w.test, ast.BoolOp) and isinstance(w.test.op, ast.And)
+    ctx.ob('C18.R5', 'truncation loop keeps the integer part', ok,
+           'a loop that removes trailing characters runs only while the number still contains a decimal point', fi=tx,
+           witness=n_loops)
+    # digit budget
+    budget = [x for x in ast.walk(tx.node) if isinstance(x, ast.Subscript) and isinstance(x.slice, ast.Slice)
+              and x.slice.upper is not None and isinstance(x.slice.upper, ast.BinOp) and isinstance(x.slice.upper.op, ast.Sub)
+              and isinstance(x.slice.upper.left, ast.Constant) and x.slice.upper.left.value == 18]
+    if not budget:
+        ctx.ob('C18.R5', 'digit budget', False, 'the 18 digit limit of xsd:decimal output is not applied', fi=tx)
+    for b in budget:
+        right = b.slice.upper.right
+        txt = unparse(right)
+        counts_sign = isinstance(right, ast.Call) and call_name(right) == 'len' and right.args and \
+            isinstance(right.args[0], ast.Name)
+        ok = not counts_sign
+        ctx.ob('C18.R5', f'digit budget {unparse(b)}', ok,
+               'the number of fractional digits kept is 18 minus the number of integer digits (sign and a lone leading zero '
+               'not counted)' if ok else
+               f'{unparse(b)}: the budget subtracts len() of the raw integer part, which counts the minus sign and a '
+               f'leading "0" as digits: -1.23456789012345678 and 0.000000000000000001 (both within 18 digits) lose digits',
+               fi=tx, node=b)
+
     # ------------------------------------------------------------------ R4
     bc = repo.cls(f'{DC}.BooleanConverter').methods.get('to_py')
     raises = any(isinstance(n, ast.Raise) for n in walk_no_nested(bc.node))
@@ -173,6 +225,10 @@ SEEDS = [
     seed('decimal normalised with round()', 'C18.R3', (_D, "        xml_value = str(py_value)\n        if 'E' in xml_value", "        xml_value = str(round(py_value, 9))\n        if 'E' in xml_value")),
     seed('exponent check dropped', 'C18.R3',
          (_D, "        if 'E' in xml_value or 'e' in xml_value:\n            # no exp form allowed in xml\n            return format(py_value, 'f')\n        return xml_value\n", "        return xml_value\n")),
+    seed('trailing zeros stripped with a character set', 'C18.R5',
+         (_D, "            while '.' in xml_value and xml_value[-1] in ('0', '.'):\n                xml_value = xml_value[:-1]", "            xml_value = xml_value.rstrip('0.') or '0'")),
+    seed('truncation loop without the point check', 'C18.R5',
+         (_D, "            while '.' in xml_value and xml_value[-1] in ('0', '.'):", "            while xml_value[-1] in ('0', '.'):")),
     seed('enum converter falls back to the raw string', 'C18.R4',
          (_D, "        value = self._klass(xml_value)\n        return value", "        try:\n            return self._klass[xml_value]\n        except KeyError:\n            return xml_value")),
     seed('control: timestamp writer with a named constant', 'C18.R1',
